@@ -252,5 +252,5 @@ pub fn run(r: &Report) {
         );
         r.sample(sub, json!({"pattern": pats[7].1, "first_bytes_hex": hex(&pats[7].0[..12])}));
     }
-    r.assume("no-alloc build: checked by the C20 probe builds (same tree corpus, oracle: same position or the documented unsupported-nesting error)");
+    crate::c20::skipcheck(r);
 }
